@@ -504,6 +504,11 @@ Definition rinit (sh : shape) (im : dimg) (rs : reason) : option rst :=
   else let r0 := {| r_s := s0; r_base := base0 p; r_mem := mem0 p; r_ph := RRun; r_I := im; r_pl := p; r_fails := [] |} in
        Some (start_recover sh r0 (group_by_block (F.fp_resumed (fixed [] p)))).
 
+(* the state chain entered at Start on a plan as Submit left it (everything NotStarted, nothing to repair): the
+   resumed automaton then is coq/engine's automaton (checked on every real uninterrupted run: ResumeCheck.check_run) *)
+Definition rfresh (sh : shape) : rst :=
+  {| r_s := init; r_base := fun _ => cell0; r_mem := []; r_ph := RRun; r_I := []; r_pl := pln_of sh []; r_fails := [] |}.
+
 Definition rreleased (r : rst) : bool := released (r_s r).
 
 (* the resumed automaton accepts tr from the crash image, and the trace ends released *)
